@@ -155,6 +155,10 @@ def catalogue(base: str, fmt: int) -> list[list]:
             if others:
                 faults.append(["md_prop_swap_ids", which, nm, others[0]])
             faults.append(["md_prop_set", which, nm, "dtype", "complex64"])
+            # spellings outside the old finite table (numpy's one-letter / byte-order / sized forms) and the comma strings that numpy
+            # answers with SyntaxError (a validation error since fix 84c3e01: validate_structure must report, not crash)
+            for dt in (",", "i4,,", "01i4", "l", "=i4", "|u1", "U0", "i 4", "Int8"):
+                faults.append(["md_prop_set", which, nm, "dtype", dt])
             faults.append(["md_axis_on", nm])
     return faults
 
@@ -334,7 +338,7 @@ def doc_term(st):
                 pm = raw.get(key)
                 if isinstance(pm, dict):
                     for e in pm.values():
-                        if isinstance(e, dict) and isinstance(e.get("dtype"), str) and e["dtype"] not in known_dtype_spellings():
+                        if isinstance(e, dict) and isinstance(e.get("dtype"), str) and not c07.dtype_model_ok(e["dtype"]):
                             return None
         return cstr(GEFF_VERSION), c07.to_jv(c07.enc(raw))
     except Exception:
